@@ -233,9 +233,37 @@ fn apply(g: &mut Gen, mut t: Term, kind: &str) -> Term {
                 let c = fresh_name(g, &[r.clone()]);
                 (r, c)
             };
-            t.shape = vec![(r.clone(), shape[0].1), (c.clone(), shape[1].1)];
-            let via = *g.rng.pick(&["with_names", "from", "with_names+mbox", "from+mrange", "with_names+mrange", "with_names+box"]);
-            t.lines.push((format!("matrixof {},{} via={}", r, c, via), Some(lens(&t.shape))));
+            if g.rng.chance(1, 2) {
+                // matrix-side adaptors between the two conversions
+                let n = g.rng.range(1, 3);
+                let mut dims = (shape[0].1, shape[1].1);
+                let mut ops: Vec<String> = vec![];
+                for _ in 0..n {
+                    if g.rng.chance(1, 2) {
+                        let (rs, rl, _) = if g.rng.chance(1, 3) { (0, dims.0, "") } else { random_range(g, dims.0.max(1)) };
+                        let (cs, cl, _) = if g.rng.chance(1, 3) { (0, dims.1, "") } else { random_range(g, dims.1.max(1)) };
+                        dims = (clip(rs, rl, dims.0), clip(cs, cl, dims.1));
+                        ops.push(format!("range:{}:{}:{}:{}", rs, rl, cs, cl));
+                        g.count("matrixof.op.range");
+                    } else {
+                        let (fr, fc) = (g.rng.below(2), g.rng.below(2));
+                        ops.push(format!("reverse:{}:{}", fr, fc));
+                        g.count(&format!("matrixof.op.reverse.{}{}", fr, fc));
+                    }
+                }
+                let via = *g.rng.pick(&["with_names", "from", "with_names+direct", "from+direct", "with_names+box"]);
+                let line = format!("matrixof {},{} ops={} via={}", r, c, ops.join(";"), via);
+                if dims.0 > 0 && dims.1 > 0 {
+                    t.shape = vec![(r.clone(), dims.0), (c.clone(), dims.1)];
+                } else {
+                    g.count("matrixof.expected_reject");
+                }
+                t.lines.push((line, Some(lens(&t.shape))));
+            } else {
+                t.shape = vec![(r.clone(), shape[0].1), (c.clone(), shape[1].1)];
+                let via = *g.rng.pick(&["with_names", "from", "with_names+mbox", "from+mrange", "with_names+mrange", "with_names+box", "with_names+dyn"]);
+                t.lines.push((format!("matrixof {},{} via={}", r, c, via), Some(lens(&t.shape))));
+            }
         }
         "rename" => {
             let mut pool: Vec<&str> = NAMES.to_vec();
@@ -831,6 +859,291 @@ fn exhaustive(g: &mut Gen) {
     }
 }
 
+/// the size of a matrix after matrix-side adaptors (`range:rs:rl:cs:cl` clips, `reverse` keeps)
+fn mat_dims(mut dims: (usize, usize), ops: &str) -> (usize, usize) {
+    for op in ops.split(';') {
+        let f: Vec<&str> = op.split(':').collect();
+        if f[0] == "range" {
+            let v: Vec<usize> = f[1..].iter().map(|x| x.parse().unwrap()).collect();
+            dims = (clip(v[0], v[1], dims.0), clip(v[2], v[3], dims.1));
+        }
+    }
+    dims
+}
+
+/// `TensorRefMatrix` over stacks of matrix adaptors (MatrixRange, MatrixReverse with each of its
+/// four settings) over `MatrixRefTensor` over row major / column major / unordered tensor views,
+/// and over a `Matrix` itself; the layout claimed and the walk in that order are asked of the
+/// matrix-backed view and of a rename / reordering / transposition of it
+fn matrix_stacks(g: &mut Gen) {
+    let tensor = |shape: &[(&str, usize)], more: &[(&str, Vec<(&str, usize)>)]| -> Term {
+        let mut t = leaf_of(shape);
+        for (line, sh) in more {
+            let sh: Shape = sh.iter().map(|(n, l)| (n.to_string(), *l)).collect();
+            t = with_line(&t, line.to_string(), Some(sh));
+        }
+        t
+    };
+    let matrix = |rows: usize, cols: usize, via: &str| -> Term {
+        Term {
+            lines: vec![(format!("matrix ? {} {} row,column{}", rows, cols, via), Some(vec![rows, cols]))],
+            shape: vec![("row".into(), rows), ("column".into(), cols)],
+        }
+    };
+    let mut bases: Vec<(Term, &str)> = vec![
+        (tensor(&[("r", 4), ("c", 5)], &[]), "with_names"),
+        (tensor(&[("r", 4), ("c", 5)], &[("access c,r", vec![("c", 5), ("r", 4)])]), "with_names"),
+        (tensor(&[("r", 4), ("c", 5)], &[("transpose c,r", vec![("r", 5), ("c", 4)])]), "from"),
+        (tensor(&[("r", 4), ("c", 5)], &[("reverse r", vec![("r", 4), ("c", 5)])]), "with_names"),
+        (matrix(4, 5, ""), "with_names+direct"),
+        (matrix(4, 5, ""), "with_names"),
+        (matrix(3, 3, " via=with_names+box"), "from+direct"),
+        (tensor(&[("r", 9), ("c", 11)], &[]), "with_names+box"),
+        (tensor(&[("c", 12), ("r", 9)], &[("access r,c", vec![("r", 9), ("c", 12)])]), "with_names"),
+    ];
+    if g.thorough {
+        bases.push((tensor(&[("r", 1), ("c", 6)], &[]), "with_names"));
+        bases.push((tensor(&[("r", 6), ("c", 1)], &[("access c,r", vec![("c", 1), ("r", 6)])]), "with_names"));
+        bases.push((matrix(10, 9, ""), "from+direct"));
+        bases.push((tensor(&[("a", 2), ("r", 5), ("c", 4)], &[("index a:1", vec![("r", 5), ("c", 4)])]), "with_names"));
+    }
+    let mut op_sets: Vec<String> = vec![];
+    for (fr, fc) in [(0, 0), (0, 1), (1, 0), (1, 1)] {
+        op_sets.push(format!("reverse:{}:{}", fr, fc));
+        op_sets.push(format!("range:1:2:1:3;reverse:{}:{}", fr, fc));
+        op_sets.push(format!("reverse:{}:{};range:1:2:1:3", fr, fc));
+        op_sets.push(format!("range:0:99:0:99;reverse:{}:{}", fr, fc));
+        op_sets.push(format!("reverse:{}:{};reverse:{}:{}", fr, fc, fr, fc));
+        op_sets.push(format!("reverse:{}:{};reverse:{}:{}", fr, fc, 1 - fr, 1 - fc));
+    }
+    for r in [
+        "range:1:2:0:99", "range:0:99:1:2", "range:1:2:1:3", "range:0:99:0:99", "range:1:99:2:99", "range:0:1:0:1", "range:2:1:2:1",
+        "range:1:3:1:3;range:1:1:0:2", "range:0:3:0:3;range:1:2:1:2;range:1:1:1:1", "range:8:1:9:2", "range:0:8:0:9",
+        // nothing left: `with_names` sees an empty matrix
+        "range:0:0:0:1", "range:0:1:0:0", "range:99:1:0:1", "range:1:2:1:3;range:2:1:0:1",
+    ] {
+        op_sets.push(r.to_string());
+    }
+    op_sets.push(format!("range:{}:1:0:1", MAX));
+    op_sets.push(format!("range:1:{}:1:{}", MAX, MAX));
+    op_sets.push(format!("range:{}:{}:0:1;reverse:1:1", MAX, MAX));
+    for (base, via) in &bases {
+        let (rows, cols) = (base.shape[0].1, base.shape[1].1);
+        for ops in &op_sets {
+            let dims = mat_dims((rows, cols), ops);
+            let ok = dims.0 > 0 && dims.1 > 0;
+            let posts: &[&str] = if !ok {
+                &[""]
+            } else if g.thorough || rows * cols <= 20 {
+                &["", "access y,x", "transpose y,x", "rename p,q", "matrixof u,v ops=range:0:1:0:99", "reverse x", "range y:0:1"]
+            } else {
+                &["", "access y,x"]
+            };
+            for post in posts {
+                let ms: Shape = vec![("x".into(), dims.0), ("y".into(), dims.1)];
+                let mut t = with_line(base, format!("matrixof x,y ops={} via={}", ops, via), if ok { Some(ms.clone()) } else { None });
+                g.count(&format!("matrix_stack.{}", if ok { "built" } else { "refused" }));
+                if !post.is_empty() {
+                    t.lines.push(("layout".into(), None));
+                    t.lines.push(("memorder".into(), None));
+                    let fin: Shape = match *post {
+                        "access y,x" => vec![ms[1].clone(), ms[0].clone()],
+                        "transpose y,x" => vec![("x".into(), ms[1].1), ("y".into(), ms[0].1)],
+                        "rename p,q" => vec![("p".into(), ms[0].1), ("q".into(), ms[1].1)],
+                        "range y:0:1" => vec![ms[0].clone(), ("y".into(), 1)],
+                        "reverse x" => ms.clone(),
+                        _ => vec![("u".into(), 1), ("v".into(), ms[1].1)],
+                    };
+                    t = with_line(&t, post.to_string(), Some(fin));
+                }
+                emit(g, &t, rows * cols <= 20, false);
+            }
+        }
+    }
+}
+
+/// corners, a sample of the inside and the ring of a large view
+fn probes_large(g: &mut Gen, ls: &[usize]) {
+    let d = ls.len();
+    g.op("shape".into());
+    g.op("layout".into());
+    g.op("memorder".into());
+    g.op("sources via=ref".into());
+    for n in ["a", "b", "f", "zz"] {
+        g.op(format!("length_of {}", n));
+    }
+    let mut idxs: Vec<Vec<usize>> = vec![];
+    // every corner
+    for bits in 0..(1usize << d) {
+        idxs.push((0..d).map(|k| if bits >> k & 1 == 1 { ls[k] - 1 } else { 0 }).collect());
+    }
+    // every position along each dimension, the others random
+    for dim in 0..d {
+        for i in 0..ls[dim] {
+            let mut idx: Vec<usize> = ls.iter().map(|&l| g.rng.below(l)).collect();
+            idx[dim] = i;
+            idxs.push(idx);
+        }
+    }
+    for _ in 0..64 {
+        idxs.push(ls.iter().map(|&l| g.rng.below(l)).collect());
+    }
+    for idx in &idxs {
+        let via = match g.rng.below(8) {
+            0 => "unchecked",
+            1 => "unchecked_mut",
+            _ => *g.rng.pick(&GET_VIAS),
+        };
+        g.op(format!("get {} via={}", show_idx(idx), via));
+        g.count("large.get");
+        if g.rng.chance(1, 5) {
+            let via = *g.rng.pick(&SET_VIAS);
+            g.op(format!("set {} via={}", show_idx(idx), via));
+            g.count("large.set");
+        }
+    }
+    for dim in 0..d {
+        for bad in [ls[dim], ls[dim] + 1, MAX] {
+            let mut idx: Vec<usize> = ls.iter().map(|&l| g.rng.below(l)).collect();
+            idx[dim] = bad;
+            let via = *g.rng.pick(&GET_VIAS);
+            g.op(format!("get {} via={}", show_idx(&idx), via));
+            g.op(format!("set {} via=mut", show_idx(&idx)));
+        }
+    }
+}
+
+fn emit_large(g: &mut Gen, t: &Term) {
+    g.op("@ case".into());
+    g.count("case");
+    g.count("case.large");
+    let mut leaf_id = 0;
+    let n = t.lines.len();
+    for (k, (line, ls)) in t.lines.iter().enumerate() {
+        let line = if line.contains(" ? ") {
+            leaf_id += 1;
+            line.replacen(" ? ", &format!(" {} ", leaf_id), 1)
+        } else {
+            line.clone()
+        };
+        g.op(line);
+        match ls {
+            Some(ls) if k + 1 == n => probes_large(g, ls),
+            Some(ls) if !ls.is_empty() => {
+                let last: Vec<usize> = ls.iter().map(|&l| l - 1).collect();
+                g.op(format!("get {} via=ref", show_idx(&last)));
+            }
+            _ => g.op("shape".into()),
+        }
+    }
+}
+
+/// large cases: dimensionality 5 and 6 with long sides, ranges / masks starting at and spanning
+/// eight and more, chains of long sources, stacks of four sources of 33 and more elements
+fn large(g: &mut Gen) {
+    let sh = |dims: &[(&str, usize)]| -> Shape { dims.iter().map(|(n, l)| (n.to_string(), *l)).collect() };
+    let line = |t: &Term, l: &str, dims: &[(&str, usize)]| -> Term { with_line(t, l.to_string(), Some(sh(dims))) };
+    // --- five and six dimensions, sides up to 9..12
+    let five = leaf_of(&[("a", 9), ("b", 2), ("c", 3), ("d", 2), ("e", 10)]);
+    let six = leaf_of(&[("a", 12), ("b", 2), ("c", 2), ("d", 3), ("e", 2), ("f", 9)]);
+    let six_b = leaf_of(&[("a", 2), ("b", 11), ("c", 1), ("d", 2), ("e", 9), ("f", 2)]);
+    emit_large(g, &five);
+    emit_large(g, &six);
+    emit_large(g, &line(&five, "range a:8:1,e:1:9", &[("a", 1), ("b", 2), ("c", 3), ("d", 2), ("e", 9)]));
+    emit_large(g, &line(&five, "mask a:0:8,e:8:1", &[("a", 1), ("b", 2), ("c", 3), ("d", 2), ("e", 9)]));
+    emit_large(g, &line(&five, "reverse a,e", &[("a", 9), ("b", 2), ("c", 3), ("d", 2), ("e", 10)]));
+    emit_large(g, &line(&five, "access e,d,c,b,a", &[("e", 10), ("d", 2), ("c", 3), ("b", 2), ("a", 9)]));
+    emit_large(g, &line(&five, "transpose e,b,c,d,a", &[("a", 10), ("b", 2), ("c", 3), ("d", 2), ("e", 9)]));
+    emit_large(g, &line(&five, "index a:8", &[("b", 2), ("c", 3), ("d", 2), ("e", 10)]));
+    emit_large(g, &line(&five, "index e:9,c:2", &[("a", 9), ("b", 2), ("d", 2)]));
+    emit_large(g, &line(&five, "expand 5:x", &[("a", 9), ("b", 2), ("c", 3), ("d", 2), ("e", 10), ("x", 1)]));
+    emit_large(g, &line(&five, "rename v,w,x,y,z", &[("v", 9), ("w", 2), ("x", 3), ("y", 2), ("z", 10)]));
+    emit_large(g, &line(&six, "range a:9:3,f:0:8", &[("a", 3), ("b", 2), ("c", 2), ("d", 3), ("e", 2), ("f", 8)]));
+    emit_large(g, &line(&six, "mask a:1:10,f:8:9", &[("a", 2), ("b", 2), ("c", 2), ("d", 3), ("e", 2), ("f", 8)]));
+    emit_large(g, &line(&six, "reverse f,a,d", &[("a", 12), ("b", 2), ("c", 2), ("d", 3), ("e", 2), ("f", 9)]));
+    emit_large(g, &line(&six, "access f,e,d,c,b,a", &[("f", 9), ("e", 2), ("d", 3), ("c", 2), ("b", 2), ("a", 12)]));
+    emit_large(g, &line(&six, "transpose b,c,d,e,f,a", &[("a", 2), ("b", 2), ("c", 3), ("d", 2), ("e", 9), ("f", 12)]));
+    emit_large(g, &line(&six, "index a:11,f:8", &[("b", 2), ("c", 2), ("d", 3), ("e", 2)]));
+    emit_large(g, &line(&six_b, "range b:2:9,e:8:1", &[("a", 2), ("b", 9), ("c", 1), ("d", 2), ("e", 1), ("f", 2)]));
+    {
+        // a composition over the six dimensional leaf
+        let t = line(&six_b, "reverse b,e", &[("a", 2), ("b", 11), ("c", 1), ("d", 2), ("e", 9), ("f", 2)]);
+        let t = line(&t, "mask b:0:8", &[("a", 2), ("b", 3), ("c", 1), ("d", 2), ("e", 9), ("f", 2)]);
+        let t = line(&t, "access e,b,a,c,d,f", &[("e", 9), ("b", 3), ("a", 2), ("c", 1), ("d", 2), ("f", 2)]);
+        emit_large(g, &t);
+        let t = line(&t, "index a:1,c:0", &[("e", 9), ("b", 3), ("d", 2), ("f", 2)]);
+        let t = line(&t, "range e:8:9", &[("e", 1), ("b", 3), ("d", 2), ("f", 2)]);
+        emit_large(g, &t);
+    }
+    // --- ranges and masks with starts and lengths of eight and more
+    let long = leaf_of(&[("a", 40)]);
+    for (l, n) in [("range a:8:8", 8), ("range a:9:17", 17), ("range a:31:9", 9), ("range a:16:99", 24), ("range a:39:8", 1), ("range a:8:32 kind=strict", 32)] {
+        emit_large(g, &line(&long, l, &[("a", n)]));
+    }
+    for (l, n) in [("mask a:8:8", 32), ("mask a:9:17", 23), ("mask a:0:31", 9), ("mask a:16:99", 16), ("mask a:1:38", 2), ("mask a:8:32 kind=strict", 8)] {
+        emit_large(g, &line(&long, l, &[("a", n)]));
+    }
+    {
+        let t = line(&long, "range a:8:30", &[("a", 30)]);
+        let t = line(&t, "mask a:9:12", &[("a", 18)]);
+        let t = line(&t, "reverse a", &[("a", 18)]);
+        let t = line(&t, "range a:8:9", &[("a", 9)]);
+        emit_large(g, &t);
+    }
+    let wide = leaf_of(&[("a", 20), ("b", 24)]);
+    emit_large(g, &line(&wide, "range a:8:10,b:9:12", &[("a", 10), ("b", 12)]));
+    emit_large(g, &line(&wide, "mask a:8:10,b:9:12", &[("a", 10), ("b", 12)]));
+    emit_large(g, &line(&wide, "range b:16:8,a:11:9", &[("a", 9), ("b", 8)]));
+    emit_large(g, &line(&line(&wide, "access b,a", &[("b", 24), ("a", 20)]), "mask b:8:8", &[("b", 16), ("a", 20)]));
+    emit_large(g, &line(&wide, "matrixof x,y ops=range:8:9:10:12;reverse:0:1 via=with_names", &[("x", 9), ("y", 12)]));
+    emit_large(g, &line(&wide, "matrixof x,y ops=range:9:11:8:16 via=with_names", &[("x", 11), ("y", 16)]));
+    // --- chains whose sources are eight and more long
+    for (along, other) in [("a", "b"), ("b", "a")] {
+        let mut lines = vec![];
+        let mut total = 0;
+        for l in [8usize, 11, 9] {
+            let s: Shape = if along == "a" { sh(&[("a", l), ("b", 3)]) } else { sh(&[("a", 3), ("b", l)]) };
+            lines.push((format!("leaf ? {}", show(&s)), Some(lens(&s))));
+            total += l;
+        }
+        let shape: Shape = if along == "a" { sh(&[("a", total), (other, 3)]) } else { sh(&[(other, 3), ("b", total)]) };
+        for via in ["array", "tuple"] {
+            let mut t = Term { lines: lines.clone(), shape: shape.clone() };
+            t.lines.push((format!("chain 3 {} via={}", along, via), Some(lens(&shape))));
+            emit_large(g, &t);
+        }
+    }
+    {
+        // four long one dimensional sources, the second and the last shortened first
+        let mut lines = vec![];
+        for (l, cut) in [(12usize, None), (17, Some((8usize, 9usize))), (8, None), (20, Some((9, 11)))] {
+            lines.push((format!("leaf ? a:{}", l), Some(vec![l])));
+            if let Some((start, keep)) = cut {
+                lines.push((format!("range a:{}:{}", start, keep), Some(vec![keep])));
+            }
+        }
+        let mut t = Term { lines, shape: sh(&[("a", 12 + 9 + 8 + 11)]) };
+        t.lines.push(("chain 4 a via=tuple".into(), Some(vec![40])));
+        emit_large(g, &t);
+        emit_large(g, &line(&t, "range a:20:12", &[("a", 12)]));
+    }
+    // --- stacks of four sources of 33 and more elements each
+    for (dims, pos) in [(vec![("a", 5usize), ("b", 7usize)], 0usize), (vec![("a", 5), ("b", 7)], 1), (vec![("a", 5), ("b", 7)], 2), (vec![("a", 33)], 1), (vec![("a", 3), ("b", 4), ("c", 3)], 2)] {
+        let base = leaf_of(&dims);
+        let mut lines = vec![];
+        for _ in 0..4 {
+            lines.extend(base.lines.iter().cloned());
+        }
+        let mut shape = base.shape.clone();
+        shape.insert(pos, ("s".into(), 4));
+        for via in ["array", "tuple"] {
+            let mut t = Term { lines: lines.clone(), shape: shape.clone() };
+            t.lines.push((format!("stack 4 {}:s via={}", pos, via), Some(lens(&shape))));
+            emit_large(g, &t);
+        }
+    }
+}
+
 /// constructor arguments the library must reject (a separate stream)
 fn malformed(g: &mut Gen) {
     let base = leaf_of(&[("a", 2), ("b", 3), ("c", 2)]);
@@ -929,6 +1242,10 @@ pub fn gen(g: &mut Gen, static_keys: &[&str], static_ops: &dyn Fn(&str) -> Vec<S
     malformed(g);
     // 3. every parameter at depth 1
     exhaustive(g);
+    // 3b. matrix-side adaptor stacks under TensorRefMatrix
+    matrix_stacks(g);
+    // 3c. large cases
+    large(g);
     // 4. random compositions
     let (max_depth, per_depth) = if g.thorough { (5, 9000) } else { (3, 1200) };
     for depth in 0..=max_depth {
